@@ -461,6 +461,9 @@ def requery_cases(tier):
 RULE_ROUND8 = ' One generated forest in 20 (60 in the thorough tier) is a BIG one (gen.big_specs: a child list of 11..300 nodes, that many clones of one data object, more than 256 nodes), with node references aimed at notable positions of the long child lists. (width <= 41). Index access also with int-subclass keys and bools.'
 RULE = RULE + RULE_ROUND8
 
+RULE_ROUND9 = ' Predicates are lambdas, functools.partial objects and instances with __call__; index access with a node of ANOTHER tree holding the same data must raise ValueError.'
+RULE = RULE + RULE_ROUND9
+
 PARTS = [
     Part("queries", run, strategy=lambda tier: hyp_cases(tier), n={"quick": 500, "thorough": 100000}),
     Part("callback-ids-typed", run, strategy=lambda tier: flavour_cases(tier), n={"quick": 200, "thorough": 20000}),
